@@ -64,9 +64,9 @@ func genCacheCase(t *rapid.T) cacheCase {
 	n := rapid.IntRange(3, 25).Draw(t, "nActions")
 	for i := 0; i < n; i++ {
 		al := fmt.Sprintf("a%d", i)
-		a := cacheAction{Op: rapid.SampledFrom([]string{"open", "search", "search", "close", "expire", "open", "expire"}).Draw(t, al+"op")}
+		a := cacheAction{Op: rapid.SampledFrom([]string{"open", "search", "search", "close", "expire", "open", "expire", "faultyopen"}).Draw(t, al+"op")}
 		switch a.Op {
-		case "open":
+		case "open", "faultyopen":
 			vo := s.Vecs[rapid.IntRange(0, len(s.Vecs)-1).Draw(t, al+"field")]
 			a.Field = vo.Name
 			a.Filter = rapid.Bool().Draw(t, al+"filter")
@@ -86,6 +86,22 @@ func genCacheCase(t *rapid.T) cacheCase {
 		c.Actions = append(c.Actions, a)
 	}
 	return c
+}
+
+// setMonitorFreq sets the period of the cache expiry monitor once per process,
+// before the first monitor goroutine exists: monitor goroutines read the
+// variable when they start, so changing it later would race with them.
+var monitorFreqSet time.Duration
+
+func setMonitorFreq(d time.Duration) {
+	if monitorFreqSet == d {
+		return
+	}
+	if monitorFreqSet != 0 {
+		panic("the vector monitor period may only be set once per process")
+	}
+	monitorFreqSet = d
+	zap.VerifSetVectorMonitorFreq(d)
 }
 
 type openHandle struct {
@@ -122,8 +138,7 @@ func queryFor(vf *spec.VecField, q []float32) []float32 {
 
 func runCacheCase(c cacheCase) *Violation {
 	const prop = "C16"
-	old := zap.VerifSetVectorMonitorFreq(time.Hour) // the timer is parked; expiry is an explicit action
-	defer zap.VerifSetVectorMonitorFreq(old)
+	setMonitorFreq(time.Hour) // the timer is parked; expiry is an explicit action
 	fakeReset()
 	base := fakeLive()
 	want := spec.Expect(c.Batch)
@@ -178,6 +193,19 @@ func runCacheCase(c cacheCase) *Violation {
 				vi, err := seg.(segment.VectorSegment).InterpretVectorIndex(a.Field, a.Filter, drive.Bitmap(a.Except))
 				if err != nil {
 					return fmt.Errorf("%s: %w", where, err)
+				}
+				handles = append(handles, &openHandle{vi: vi, field: a.Field, filter: a.Filter, except: a.Except})
+			case "faultyopen":
+				// an open during which the engine fails to load the index (if the index is
+				// cached no load happens and the open succeeds); later opens must be unaffected
+				faiss.VerifFailNth("ReadIndexFromBuffer", 1)
+				vi, err := seg.(segment.VectorSegment).InterpretVectorIndex(a.Field, a.Filter, drive.Bitmap(a.Except))
+				faiss.VerifFailNth("ReadIndexFromBuffer", 0)
+				if err != nil {
+					if vi != nil {
+						vi.Close()
+					}
+					continue
 				}
 				handles = append(handles, &openHandle{vi: vi, field: a.Field, filter: a.Filter, except: a.Except})
 			case "close":
@@ -284,6 +312,8 @@ var c16 = Check[cacheCase]{
 		expired := false
 		for _, a := range c.Actions {
 			switch a.Op {
+			case "faultyopen":
+				cl = append(cl, "open-with-failing-index-load")
 			case "open":
 				key := fmt.Sprint(a.Except)
 				if f, ok := first[a.Field]; ok && f != key {
@@ -329,8 +359,7 @@ type cacheStressCase struct {
 
 func runCacheStressCase(c cacheStressCase) *Violation {
 	const prop = "C16"
-	old := zap.VerifSetVectorMonitorFreq(time.Millisecond)
-	defer zap.VerifSetVectorMonitorFreq(old)
+	setMonitorFreq(time.Millisecond)
 	fakeReset()
 	base := fakeLive()
 	want := spec.Expect(c.Batch)
@@ -467,6 +496,28 @@ var c16stress = Check[cacheStressCase]{
 				o := opens[rapid.IntRange(0, len(opens)-1).Draw(t, fmt.Sprintf("s%do%d", i, j))]
 				s := searches[rapid.IntRange(0, len(searches)-1).Draw(t, fmt.Sprintf("s%ds%d", i, j))]
 				s.Field, s.Filter, s.Except = o.Field, o.Filter, o.Except
+				if s.Filter && rapid.Bool().Draw(t, fmt.Sprintf("s%dhot%d", i, j)) {
+					// filtered searches of different goroutines that start with the same document
+					// (the one with most vectors in the field) and differ afterwards
+					hot, best := uint64(0), 0
+					cnt := map[uint64]int{}
+					if vf := spec.Expect(c.Batch).Vec[s.Field]; vf != nil {
+						for _, e := range vf.Entries {
+							cnt[e.Doc]++
+							if cnt[e.Doc] > best {
+								hot, best = e.Doc, cnt[e.Doc]
+							}
+						}
+					}
+					el := []uint64{hot}
+					for _, d := range s.Eligible {
+						if d != hot {
+							el = append(el, d)
+						}
+					}
+					s.Eligible = el
+					s.Except = spec.DropSpec{Nil: true}
+				}
 				acts = append(acts, s)
 			}
 			c.Searchers = append(c.Searchers, acts)
